@@ -297,3 +297,30 @@ class NormText(str):
         if self.node is None or isinstance(item, NormText) or len(item) < 6 or not getattr(self.node, "_canon", False):
             return False
         return find(self.node, item) is not None
+
+
+class Binder:
+    """A correspondence between pattern names and the names of the analysed function that is shared by several
+    matches, so that a role (`the conversion variable`) identified by one pattern is the same variable in the next."""
+
+    def __init__(self):
+        self.map = {}
+
+    def eq(self, node, pattern):
+        r = eq(node, pattern, bind=self.map)
+        if r is None:
+            return False
+        self.map.update(r)
+        return True
+
+    def find(self, root, pattern):
+        n = find(root, pattern, bind=self.map)
+        if n is not None:
+            self.map.update(getattr(n, "_pm_bind", {}))
+        return n
+
+    def findall(self, root, pattern):
+        return list(findall(root, pattern, bind=self.map))
+
+    def name(self, pattern_name):
+        return self.map.get(pattern_name)
